@@ -147,6 +147,80 @@ theorem bad_header_size_rejected (f : List Nat)
   rw [← field_eq_spec] at h
   exact runAll_error_of_mem _ _ .headerSize (all_checks_run _) (by rw [ne_eq, headerSize_ok_iff]; exact h)
 
+/-- … with "Wrong Adler32 checksum" when the guards before it pass. -/
+theorem bad_checksum_error (f : List Nat) (hl : 112 ≤ f.length)
+    (he : Spec.Header.field f Spec.Header.endianTagOff = some Spec.Header.endianConstant)
+    (hm : Spec.Header.MagicOK f) (c : Nat)
+    (hc : Spec.Header.field f Spec.Header.checksumOff = some c)
+    (hne : c ≠ Spec.Header.adler32 (f.drop Spec.Header.checksummedFrom)) :
+    headerCheck f = .error .badChecksum := by
+  rw [← field_eq_spec] at he hc
+  rw [← adler32_eq_spec] at hne
+  apply runAll_first_error f [.size, .endian, .unpack, .magic] _ .checksum
+  · intro d hd
+    simp only [List.mem_cons, List.not_mem_nil, or_false] at hd
+    rcases hd with rfl | rfl | rfl | rfl
+    · exact (size_ok_iff f).2 hl
+    · exact (endian_ok_iff f).2 he
+    · exact (unpack_ok_iff f).2 hl
+    · exact (magic_ok_iff f).2 hm
+  · exact checksum_error f c hc hne
+
+/-- … with "Wrong header size" when the guards before it (checksum included) pass. -/
+theorem bad_header_size_error (f : List Nat) (hl : 112 ≤ f.length)
+    (he : Spec.Header.field f Spec.Header.endianTagOff = some Spec.Header.endianConstant)
+    (hm : Spec.Header.MagicOK f)
+    (hc : Spec.Header.field f Spec.Header.checksumOff
+            = some (Spec.Header.adler32 (f.drop Spec.Header.checksummedFrom)))
+    (v : Nat) (hv : Spec.Header.field f Spec.Header.headerSizeOff = some v)
+    (hne : v ≠ Spec.Header.headerSize) :
+    headerCheck f = .error .badHeaderSize := by
+  rw [← field_eq_spec] at he hc hv
+  rw [← adler32_eq_spec] at hc
+  apply runAll_first_error f [.size, .endian, .unpack, .magic, .checksum] _ .headerSize
+  · intro d hd
+    simp only [List.mem_cons, List.not_mem_nil, or_false] at hd
+    rcases hd with rfl | rfl | rfl | rfl | rfl
+    · exact (size_ok_iff f).2 hl
+    · exact (endian_ok_iff f).2 he
+    · exact (unpack_ok_iff f).2 hl
+    · exact (magic_ok_iff f).2 hm
+    · exact (checksum_ok_iff f).2 hc
+  · exact headerSize_error f v hv hne
+
+/-- The three version bytes of the magic (offsets 4..6) are not decisive: changing them never
+    changes the verdict (androguard only logs a warning). -/
+theorem version_bytes_not_decisive (f : List Nat) (i b : Nat) (hi : 4 ≤ i) (hi' : i ≤ 6) :
+    headerCheck (f.set i b) = headerCheck f := by
+  have key : ∀ c, runCheck (f.set i b) c = runCheck f c := by
+    intro c
+    cases c
+    · simp [runCheck]
+    · simp only [runCheck]; rw [u32At_set_of_not_mem f endianOff i b (by simp [endianOff]; omega)]
+    · simp [runCheck]
+    · have e1 : ∀ j, j ≠ i → (f.set i b)[j]? = f[j]? := fun j hj => List.getElem?_set_ne (Ne.symm hj)
+      have h1 := magic_ok_iff (f.set i b)
+      have h2 := magic_ok_iff f
+      rw [e1 0 (by omega), e1 1 (by omega), e1 2 (by omega), e1 3 (by omega), e1 7 (by omega)] at h1
+      have : runCheck (f.set i b) .magic = .ok () ↔ runCheck f .magic = .ok () := h1.trans h2.symm
+      revert this
+      simp only [runCheck]
+      split <;> split <;> simp_all
+    · simp only [runCheck]
+      rw [u32At_set_of_not_mem f checksumOff i b (by simp [checksumOff]; omega),
+        List.drop_set_of_lt (by simp [checksumStart]; omega)]
+    · simp only [runCheck, fieldGuard]
+      rw [u32At_set_of_not_mem f headerSizeOff i b (by simp [headerSizeOff]; omega)]
+    · simp only [runCheck, fieldGuard]
+      rw [u32At_set_of_not_mem f typeIdsOff i b (by simp [typeIdsOff]; omega)]
+    · simp only [runCheck, fieldGuard]
+      rw [u32At_set_of_not_mem f protoIdsOff i b (by simp [protoIdsOff]; omega)]
+  unfold headerCheck
+  generalize checkOrder = cs
+  induction cs with
+  | nil => rfl
+  | cons c cs ih => simp only [runAll, key c, ih]
+
 /-- Characterisation of the accepted headers: exactly the buffers of at least 112 bytes with
     ENDIAN_CONSTANT, the magic, the Adler-32 of everything after the checksum field, header size
     0x70 and at most 65535 type and proto ids.  (The version digits, `file_size`, the SHA-1
